@@ -159,7 +159,7 @@ func runC04(c *Ctx) {
 	for vi, set := range []func(c *Cfg){func(c *Cfg) {}, func(c *Cfg) { c.AllowIdpInit = true }, func(c *Cfg) { c.CustomReqID = Bptr(true) }, func(c *Cfg) { c.CustomReqID = Bptr(false) }} {
 		cfg := defaultCfg()
 		set(&cfg)
-		for _, arirt := range []*string{sp("resolve-77"), sp("resolve-78"), sp("resolve-7"), sp("resolve-777"), sp(""), nil, sp(id)} {
+		for _, arirt := range []*string{sp("resolve-77"), sp("resolve-78"), sp("resolve-7"), sp("resolve-777"), sp(""), nil, sp(id), sp("Resolve-77"), sp("RESOLVE-77"), sp("resolve-77 "), sp("re\u017folve-77")} {
 			for _, ids := range [][]string{{id}, {}} {
 				for ri, rirt := range []*string{sp(id), sp("id-0000000000"), nil} {
 					if vi > 0 && ri == 1 && !c.Thorough() {
@@ -199,7 +199,7 @@ func c04HTTP(c *Ctx) {
 	now := baseNow
 	const id = "id-7f3a9c0e1b"
 	n := 0
-	for _, mode := range []string{"issued", "other", "empty", "absent", "prefix", "replayed-previous"} {
+	for _, mode := range []string{"issued", "other", "empty", "absent", "prefix", "replayed-previous", "upper-case", "title-case", "padded"} {
 		for _, ids := range [][]string{{id}, {}} {
 			n++
 			rs, as := validSpecs(cfg, now, fmt.Sprintf("http%d", n))
@@ -223,6 +223,12 @@ func c04HTTP(c *Ctx) {
 					}
 				case "replayed-previous":
 					ars.IRT = sp(prev)
+				case "upper-case":
+					ars.IRT = sp(strings.ToUpper(resolveID))
+				case "title-case":
+					ars.IRT = sp(strings.ToUpper(resolveID[:1]) + resolveID[1:])
+				case "padded":
+					ars.IRT = sp(resolveID + " ")
 				}
 				ar := buildResponse(ars, r.Clone())
 				SignInto(ar, 0)
